@@ -9,8 +9,10 @@
 From EN Require Import Lib.Bytes Conc.TlsBase Conc.TlsPump Conc.IdealTls.
 
 Section Duplex.
+Variable fl : flags.
 Variable E D : byte -> byte.
 Variable M : nat.
+Notation sys_step := (sys_step fl).
 
 Record endpoint := {
   e_ideal : ideal;          (* the SSL object, including the incoming BIO *)
